@@ -181,7 +181,7 @@ pub fn len_fields(b: &[u8]) -> Vec<(usize, usize, usize, usize)> {
     fn walk(b: &[u8], p: &mut usize, out: &mut Vec<(usize, usize, usize, usize)>) -> Option<()> {
         let m = *b.get(*p)?; let at = *p; *p += 1;
         let be = |b: &[u8], p: &mut usize, k: usize| -> Option<usize> { let mut v = 0usize; for _ in 0..k { v = (v << 8) | *b.get(*p)? as usize; *p += 1; } Some(v) };
-        let mut field = |b: &[u8], p: &mut usize, k: usize, out: &mut Vec<(usize, usize, usize, usize)>| -> Option<usize> { let pos = *p; let v = be(b, p, k)?; out.push((pos, k, v, b.len() - *p)); Some(v) };
+        let field = |b: &[u8], p: &mut usize, k: usize, out: &mut Vec<(usize, usize, usize, usize)>| -> Option<usize> { let pos = *p; let v = be(b, p, k)?; out.push((pos, k, v, b.len() - *p)); Some(v) };
         match m {
             0x80..=0x8f => { out.push((at, 0, (m - 0x80) as usize, b.len() - *p)); for _ in 0..2 * (m - 0x80) as usize { walk(b, p, out)?; } }
             0x90..=0x9f => { out.push((at, 0, (m - 0x90) as usize, b.len() - *p)); for _ in 0..(m - 0x90) as usize { walk(b, p, out)?; } }
@@ -218,5 +218,19 @@ pub fn mutate(rng: &mut Rng, valid: &[u8], other: &[u8]) -> (&'static str, Vec<u
         6 => { let k = rng.below(b.len() as u64 + 1) as usize; let m = *rng.pick(&[0xc1u8, 0xc4, 0xc5, 0xc6, 0xc7, 0xc8, 0xc9, 0xd4, 0xd5, 0xd6, 0xd7, 0xd8]); if k < b.len() { b[k] = m } else { b.push(m) } ("marker", b) }
         7 => { b.extend(other); ("trailing", b) }
         _ => { let n = rng.below(40) as usize; ("random", (0..n).map(|_| { let x = rng.next_u64(); if x % 3 == 0 { [0x92u8, 0x81, 0xa1, 0xd9, 0xdc, 0xde, 0xc0, 0x01, 0xcb][(x >> 8) as usize % 9] } else { (x >> 16) as u8 } }).collect()) }
+    }
+}
+
+/// Mid-size containers of handle-carrying children (strings / small arrays): reading past the first
+/// thousand children while earlier handles are still in use exercises the stability of element addresses.
+pub fn gen_mid(rng: &mut Rng, which: usize) -> Wire {
+    let n = [1025usize, 1040, 1100, 2049, 4100][which % 5];
+    let strs = |tag: &str, n: usize| -> Vec<Wire> { (0..n).map(|i| Wire::Str(StrFmt::Fix, format!("{}{}", tag, i).into_bytes())).collect() };
+    match (which / 5) % 3 {
+        0 => Wire::Arr(LenFmt::Fix, vec![Wire::Arr(len_fmt(rng, n, true), strs("a", n)), Wire::Arr(len_fmt(rng, n, true), strs("b", n))]),
+        1 => { let l: Vec<(Wire, Wire)> = (0..n).map(|i| (Wire::Str(StrFmt::Fix, format!("k{}", i).into_bytes()), Wire::Arr(LenFmt::Fix, vec![Wire::Int(IntFmt::PFix, (i % 100) as i128)]))).collect();
+               Wire::Arr(LenFmt::Fix, vec![Wire::Map(len_fmt(rng, n, true), l), Wire::Arr(len_fmt(rng, n, true), strs("s", n))]) }
+        _ => { let l: Vec<Wire> = (0..n).map(|i| Wire::Arr(LenFmt::Fix, vec![Wire::Str(StrFmt::Fix, format!("v{}", i).into_bytes())])).collect();
+               Wire::Map(LenFmt::Fix, vec![(Wire::Str(StrFmt::Fix, b"x".to_vec()), Wire::Arr(len_fmt(rng, n, true), l.clone())), (Wire::Str(StrFmt::Fix, b"y".to_vec()), Wire::Arr(len_fmt(rng, n, true), l))]) }
     }
 }
